@@ -320,6 +320,41 @@ class Repo:
                     self._add_module("workflow." + fn[:-3], p, os.path.relpath(p, self.root))
         for m in self.modules.values():
             self._link_classes(m)
+        self._normalise_calls()
+
+    def _normalise_calls(self):
+        """second normalisation pass (needs the whole repository): in calls of module-level repository functions, keyword
+        arguments that name the next positional parameters become positional — `f(array=x)` and `f(x)` are one shape."""
+        for m in self.modules.values():
+            if m.is_snake:
+                continue
+            changed = False
+            for node in ast.walk(m.tree):
+                if not (isinstance(node, ast.Call) and isinstance(node.func, (ast.Name, ast.Attribute)) and node.keywords):
+                    continue
+                if any(isinstance(a, ast.Starred) for a in node.args) or any(k.arg is None for k in node.keywords):
+                    continue
+                try:
+                    r = self.resolve_expr(m, node.func) if isinstance(node.func, ast.Name) or (
+                        isinstance(node.func.value, ast.Name) and node.func.value.id in m.imports) else None
+                except Exception:
+                    r = None
+                if not (r and r[0] == "func" and r[1].cls is None):
+                    continue
+                a = r[1].node.args
+                if a.vararg is not None or a.posonlyargs:
+                    continue
+                params = [x.arg for x in a.args]
+                kw = {k.arg: k for k in node.keywords}
+                pos = list(node.args)
+                while len(pos) < len(params) and params[len(pos)] in kw:
+                    pos.append(kw.pop(params[len(pos)]).value)
+                if len(pos) != len(node.args):
+                    node.args = pos
+                    node.keywords = [k for k in node.keywords if k.arg in kw]
+                    changed = True
+            if changed:
+                set_parents(m.tree)
 
     def _add_module(self, name, path, rel, source=None, tree=None, is_snake=False):
         if source is None:
